@@ -296,7 +296,10 @@ class Renderer:
             subs = [([mapp(m, q) for q in pts], closed) for pts, closed in local_subs]
             layers = []
             fo = float(p.get('fill-opacity', 1)); so = float(p.get('stroke-opacity', 1))
-            ctx = {'bbox': bbox_of(local_subs), 'ctm': m, 'viewbox': self.viewbox}
+            # percentages of a userSpaceOnUse gradient refer to the nearest viewport: the closest ancestor <svg> of the shape
+            nw, nh = self.parent_size(el)
+            near_vb = [0.0, 0.0, nw, nh] if (nw or nh) else self.viewbox
+            ctx = {'bbox': bbox_of(local_subs), 'ctm': m, 'viewbox': near_vb}
             if p.get('fill', 'black') != 'none':
                 layers.append(Leaf(fill_test(subs, p.get('fill-rule') == 'evenodd', self.eps), parse_color(p['fill'], self.ids, ctx), max(0.0, min(1.0, fo)), 'fill'))
             if p.get('stroke', 'none') != 'none' and float(p.get('stroke-width', 1)) > 0:
